@@ -118,6 +118,8 @@ def make_scenario(streams, quarantine=()):
         klass = 'ext_nodate'
     elif x < 0.16 and direction == 'fwd':
         klass = 'future_end'
+    elif x < 0.19:
+        klass = 'runs_out'      # a calendar whose validity ends (forward) / begins (backward) in the middle of the work
     base_day = DT(2024, 1, 1) + _dt.timedelta(days=r.randint(0, 500))
     P = base_day if r.random() < 0.5 else base_day + _dt.timedelta(hours=r.randint(0, 23), minutes=r.choice([0, 0, 30, 17]))
     ids = list(range(0, n + 4))
@@ -246,7 +248,29 @@ def make_scenario(streams, quarantine=()):
                 supplied.append(dead)
         else:
             klass = 'ok'
+    if klass == 'runs_out':
+        cand = [t for t in leaves if not t['kw'].get('milestone') and t['kw'].get('resource') in ('r1', 'r2', 'r3')]
+        if cand:
+            victim = r.choice(cand)
+            victim['kw']['estimate'] = r.choice([30, 60, 200])
+            victim['kw'].pop('spent', None)
+            runs_out = victim['kw']['resource']
+            if runs_out not in supplied:
+                supplied.append(runs_out)
+        else:
+            klass, runs_out = 'ok', None
+    else:
+        runs_out = None
     for name in supplied:
+        if name == runs_out:
+            edge = base_day + _dt.timedelta(days=r.randint(1, 9))
+            cal = {'t': 'weekly', 'days': [0, 1, 2, 3, 4], 'units': 8}
+            if direction == 'fwd':
+                cal['end'] = iso(edge + _dt.timedelta(hours=23, minutes=59, seconds=59, microseconds=999999))
+            else:
+                cal['start'] = iso(base_day - _dt.timedelta(days=r.randint(1, 9)))
+            sc['resources'].append({'name': name, 'kind': 'real', 'cal': cal})
+            continue
         if name == dead:
             if r.random() < 0.3:
                 sc['resources'].append({'name': name, 'kind': 'sim', 'weekly': [0] * 7, 'overrides': {}})
